@@ -952,27 +952,62 @@ Definition print_item (i : item) : text :=
 Definition print_pat (p : pat) : text :=
   flat_map print_item (items p) ++ match star p with Some n => c_star :: n | None => [] end.
 
-(* case   = [[wordchars; digitchars]; decls; [] | [PATH_INFO bytes]; method; mode]
+(* ---- histories (third round): several dispatches over one mapper.  matcher() builds a fresh
+   dictionary on every call (fact [matcher_fresh_dict]: the "d = {} ... return d" shape, no cache
+   decorator), so whatever a caller does to a dictionary it was handed cannot reach a later
+   dispatch: the model of a history is the map of the stateless single dispatch.  When the fact
+   does not hold the model claims nothing about histories. *)
+Definition matcher_pure_ok : bool := (matcher_fresh_dict =? 1)%N.
+Definition hist_outcomes (mt : pat -> text -> option matchdict) (m : mapper)
+  (steps : list (option text * text)) : option (list outcome) :=
+  if matcher_pure_ok
+  then Some (map (fun s => fst (dispatch_request_with mt m (snd s) (fst s))) steps)
+  else None.
+(* specification: every dispatch is judged on its own path *)
+Definition spec_hist (parse : text -> res pat) (sm : pat -> text -> option matchdict) (ds : list decl)
+  (steps : list (option text * text)) : list spec_outcome :=
+  map (fun s => spec_request_with parse sm ds (snd s) (fst s)) steps.
+Definition get_step (v : val) : option (option text * text) :=
+  match v with
+  | VL [raw; VT method] => olet raw := get_opt get_text raw in Some (raw, method)
+  | _ => None
+  end.
+
+(* case   = [[wordchars; digitchars]; decls; [] | [PATH_INFO bytes]; method; mode; history?]
             mode 0: RoutesMapper driven directly; mode 1: Configurator.add_route + Router
             (duplicate names conflict and a failing connect aborts the commit)
-   answer = [[statuses; routelist ids; static ids; outcome; trace]; spec]
+            history = earlier dispatches [[] | [PATH_INFO]; method] over the same mapper
+   answer = [[statuses; routelist ids; static ids; outcome; trace]; spec; history outcomes | ["drift"]; history spec]
    (multi-atom model and the specification that speaks about failing declarations) *)
 Definition run_C01 (v : val) : val :=
   ret_or_bad (
     match v with
-    | VL [o; ds; raw; VT method; VI mode] =>
+    | VL (o :: ds :: raw :: VT method :: VI mode :: rest) =>
         olet orc := get_oracle o in
         olet ds := get_list_of get_decl ds in
         olet raw := get_opt get_text raw in
+        olet steps := match rest with
+                      | [] => Some []
+                      | [h] => get_list_of get_step h
+                      | _ => None
+                      end in
         let '(m, sts) := connect_all_with (parse_pattern_m orc) empty_mapper 0 ds in
         let router := negb (Z.eqb mode 0) in
+        let cfgerr := router && (negb (forallb is_ok sts) || has_dup (map d_name ds)) in
         let model :=
-          if router && (negb (forallb is_ok sts) || has_dup (map d_name ds))
+          if cfgerr
           then VL [VL (map put_status sts); VL []; VL []; put_outcome OConfigError; VL []]
           else
             let '(out, tr) := dispatch_request_with (match_pat_m orc) m method raw in
             VL [VL (map put_status sts); put_ids (routelist m); put_ids (statics m); put_outcome out;
                 if router then VL [] else put_trace tr] in
-        Some (VL [model; put_spec (spec_request_m orc ds method raw)])
+        let hist :=
+          if cfgerr then VL []
+          else match hist_outcomes (match_pat_m orc) m steps with
+               | Some l => VL (map put_outcome l)
+               | None => VL [VT (T "drift")]
+               end in
+        Some (VL [model; put_spec (spec_request_m orc ds method raw); hist;
+                  VL (map put_spec (spec_hist (spec_parse_m orc) (spec_match_m orc) ds steps))])
     | _ => None
     end).
